@@ -60,6 +60,57 @@ def random_history(rng, steps, start_id):
     return events
 
 
+def hier_columns_probes(ctx, n):
+    '''FrameGO with hierarchical (IndexHierarchyGO) columns: growth calls that must be rejected (a Frame re-opening an outer label, of another
+    depth, with flat columns; a duplicate label; a mis-sized value) leave labels and data in step, and a later valid growth lands under its label'''
+    import numpy as np
+    import static_frame as sf
+    rng = ctx.rng
+    for k in range(n):
+        labels = [('a', 1), ('a', 2), ('b', 1)][:rng.randint(2, 3)]
+        data = {lab: np.array([10 * j, 10 * j + 1]) for j, lab in enumerate(labels)}
+        f = sf.FrameGO.from_items(((lab, data[lab]) for lab in labels), index=('r0', 'r1'), columns_constructor=sf.IndexHierarchyGO.from_labels)
+        if rng.random() < 0.5:
+            f.values, f.columns.values          # with and without materialised caches
+        bad = rng.choice(['reopen_outer', 'other_depth', 'flat_columns', 'duplicate', 'mis_sized', 'reopen_setitem'])
+        try:
+            if bad == 'reopen_outer':
+                f.extend(sf.Frame.from_items(((('a', 9), (7, 7)), (('c', 1), (8, 8))), index=('r0', 'r1'), columns_constructor=sf.IndexHierarchy.from_labels) if labels[-1][0] == 'b' else
+                         sf.Frame.from_items(((('z', 1), (7, 7)), (('a', 9), (8, 8))), index=('r0', 'r1'), columns_constructor=sf.IndexHierarchy.from_labels))
+            elif bad == 'other_depth':
+                f.extend(sf.Frame.from_items(((('q', 1, 1), (7, 7)),), index=('r0', 'r1'), columns_constructor=sf.IndexHierarchy.from_labels))
+            elif bad == 'flat_columns':
+                f.extend(sf.Frame.from_items((('flat', (7, 7)),), index=('r0', 'r1')))
+            elif bad == 'duplicate':
+                f[labels[0]] = np.array([7, 7])
+            elif bad == 'mis_sized':
+                f[('q', 1)] = np.array([7, 7, 7])
+            else:
+                f[('a', 9)] = np.array([7, 7])          # re-opens the outer label a after b: not a tree in the given order
+            outcome = 'accepted'
+        except Exception as e:
+            outcome = 'rejected:' + type(e).__name__
+        problems = []
+        if outcome == 'accepted' and not (bad == 'reopen_setitem' and labels[-1][0] == 'a') and not (bad == 'reopen_outer' and False):
+            problems.append('growth that must be rejected was accepted')
+        try:
+            if outcome != 'accepted':
+                if [tuple(c) for c in f.columns] != labels or f.shape != (2, len(labels)) or len(f._blocks._index) != len(labels) or len(f.dtypes) != len(labels) or f.values.shape != (2, len(labels)):
+                    problems.append('labels and data out of step after a rejected call: columns %r shape %r blocks %d' % ([tuple(c) for c in f.columns], f.shape, len(f._blocks._index)))
+                new = ('z', 5)
+                f[new] = np.array([55, 56])
+                if f[new].values.tolist() != [55, 56]:
+                    problems.append('a later valid growth reads back %r under its label' % (f[new].values.tolist(),))
+                for lab in labels:
+                    if f[lab].values.tolist() != data[lab].tolist():
+                        problems.append('column %r changed' % (lab,))
+        except Exception as e:
+            problems.append('container unusable after a rejected call: %s: %s' % (type(e).__name__, str(e)[:80]))
+        ctx.count('V_hier_columns_probe_' + bad)
+        if problems:
+            ctx.violation('V', 'FrameGO with hierarchical columns: ' + problems[0], case={'probe': 'hier_columns', 'labels': [list(x) for x in labels], 'bad': bad}, actual={'outcome': outcome, 'problems': problems}, clause='rejected_growth_changed_container')
+
+
 def main(ctx, pid='C09'):
     quick = ctx.tier == 'quick'
     ctx.model_check('MC_C09', 'MC_C09_quick.cfg' if quick else 'MC_C09_thorough.cfg', timeout=6000, heap='12g')
@@ -109,5 +160,6 @@ def main(ctx, pid='C09'):
                 ctx.violation('V', 'hierarchical grow-only history: recorded %s event violates %s' % (ev['kind'], rejh[ev['id']][0]), case={k: ev[k] for k in ev if k not in ('obs', 'id')},
                               actual=ev.get('obs') or {'rows': ev.get('rows'), 'outcome': ev.get('outcome')}, clause=rejh[ev['id']][0], expected=rejh[ev['id']][1])
         ctx.count('V_hierarchical_history_events', len(hev))
+        hier_columns_probes(ctx, 120 if quick else 3000)
     ctx.sample({'leg': 'V', 'history': [e['act'] for e in events[:6]]})
     return ctx.finish(rule='M: SFGo (required semantics) exhaustive for 3 labels, <=2 (thorough 3) live objects, <=3 labels each, with action properties AppendOnly / AllOrNothing / Isolation; R: TLC simulation behaviours (depth 9, 4 labels, <=4 objects) replayed on real FrameGO/IndexGO and 28 derivation routes; V: random histories of 8-30 calls (5 labels, <=9 objects) validated by Trace_Go; every step projects every live object incl. membership/lookup probes of all universe labels, per-column dtypes and equals; plus IndexHierarchyGO histories (depth 2-3, reads in between, indices derived from the grown hierarchy) validated by Trace_C05')
